@@ -564,10 +564,20 @@ func VerifC14_CompositeChildOrphan() {
 	// parents' own selectors
 	p1Shape := 1
 	if !genSel && full {
-		p1Shape = rt.Choice("p1-selector-shape", 3)
+		p1Shape = rt.Choice("p1-selector-shape", 4)
 	}
 	s1app, s1role := "", ""
+	s1op, s1v2 := 0, ""
 	switch p1Shape {
+	case 3: // set-based selector: one matchExpressions requirement on "app"
+		s1app, s1v2 = rt.String("p1-selector-app"), rt.String("p1-selector-app2")
+		s1op = rt.Choice("p1-selector-operator", 4)
+		req := map[string]interface{}{"key": "app", "operator": []string{"In", "NotIn", "Exists", "DoesNotExist"}[s1op]}
+		if s1op < 2 {
+			req["values"] = []interface{}{s1app, s1v2}
+		}
+		p1.obj.Object["spec"] = map[string]interface{}{"selector": map[string]interface{}{"matchExpressions": []interface{}{req}}}
+		rt.Cover("orphan/set-based-selector")
 	case 0: // no spec.selector: the parent is misconfigured and selects nothing
 		p1.obj.Object["spec"] = map[string]interface{}{}
 	case 1:
@@ -638,6 +648,30 @@ func VerifC14_CompositeChildOrphan() {
 		}
 		if shape == 0 {
 			return false
+		}
+		if shape == 3 {
+			switch s1op {
+			case 0: // In
+				if !hasApp {
+					return false
+				}
+				if app == s1app {
+					return true
+				}
+				return app == s1v2
+			case 1: // NotIn: a missing label satisfies it
+				if !hasApp {
+					return true
+				}
+				if app == s1app {
+					return false
+				}
+				return app != s1v2
+			case 2:
+				return hasApp
+			default:
+				return !hasApp
+			}
 		}
 		if !hasApp {
 			return false
